@@ -12,7 +12,7 @@ documents (nesting 5..8 with headers, operators and mixed containers at every de
 import re
 from vlib import hexs, unhex
 
-WKEYS = [b"a", b"b", b"core", b"name", b"10", b'"a"', b"unit", b"@v"]
+WKEYS = [b"a", b"b", b"core", b"name", b"10", b'"a"', b"unit", b"@v", b"cl\xe9", b'"\xc3\xa9t\xc3\xa9"', b'"k\\\"q"']
 WOPS = [b"=", b"=", b"=", b"<", b">=", b"!=", b"?=", b"=="]
 WVALS = [b"1", b"yes", b"x", b'"q r"', b'" lead"', b"h\xe9", b'"\xc3\xa9 "', b"{ 1 2 }", b"{ a=1 a=2 }", b"rgb { 1 2 3 }", b"{ }", b"hsv{ a=b }", b"-5", b"1.5", b"{ a=1 7 8 }"]
 
